@@ -423,6 +423,28 @@ def rule_dispatch_transparent(ctx: Ctx, out: Collector) -> None:
                 problems.append(f'{ev.text(60)}: the body is not bound with functools.partial')
                 continue
             inner = ast.Call(func=part.args[0], args=part.args[1:], keywords=part.keywords)
+            # the body may be called through an in-repo wrapper: partial(wrapper, run_method, *args, **kwargs) where
+            # wrapper(run_method, *a, **k) returns run_method(*a, **k)
+            wt = FuncEnv.of(ctx.p, unit).type_of(part.args[0])
+            if wt[0] == 'func' and not wt[1].is_async and len(part.args) >= 2:
+                w = wt[1]
+                wa = w.node.args
+                wparams = [x.arg for x in getattr(wa, 'posonlyargs', [])] + [x.arg for x in wa.args]
+                wva, wkw = (wa.vararg.arg if wa.vararg else None), (wa.kwarg.arg if wa.kwarg else None)
+                passes = False
+                for n_ in ast.walk(w.node):
+                    if isinstance(n_, ast.Return) and isinstance(n_.value, ast.Call) and isinstance(n_.value.func, ast.Name) \
+                            and wparams and n_.value.func.id == wparams[0]:
+                        cs = n_.value
+                        st_ = [x.value.id for x in cs.args if isinstance(x, ast.Starred) and isinstance(x.value, ast.Name)]
+                        kw_ = [k.value.id for k in cs.keywords if k.arg is None and isinstance(k.value, ast.Name)]
+                        others = [x for x in cs.args if not isinstance(x, ast.Starred)] + [k for k in cs.keywords if k.arg is not None]
+                        if st_ == [wva] and kw_ == [wkw] and not others and len(wparams) == 1:
+                            passes = True
+                if not passes:
+                    problems.append(f'{ev.text(60)}: the wrapper {w.name} does not call the body with exactly the arguments it was given')
+                    continue
+                inner = ast.Call(func=part.args[1], args=part.args[2:], keywords=part.keywords)
             c = inner
         stars = [x.value.id for x in c.args if isinstance(x, ast.Starred) and isinstance(x.value, ast.Name)]
         kws = [k.value.id for k in c.keywords if k.arg is None and isinstance(k.value, ast.Name)]
